@@ -313,3 +313,33 @@ Theorem C01_lincode_batch_complete :
     default_batch_check LCm (list LProof) (list sq_ev) (lc_check_list tensor wf) cs qs ev pfs tape = Ok (true, rest).
 Proof. exact @lc_batch_complete. Qed.
 Print Assumptions C01_lincode_batch_complete.
+
+(* the same with separate prover / verifier transcript states related by a simulation, and a side condition on the points;
+   instance: Hyrax batch_open / batch_check (the prover's state also carries its RNG tape) *)
+Theorem C01_default_batch_complete_sim :
+  forall (FO : FieldOps) (Comm Item Proof PSt VSt : Type)
+         (check : list Comm -> point -> list F -> Proof -> VSt -> res (bool * VSt))
+         (open : list Item -> point -> PSt -> res (Proof * PSt))
+         (R : Item -> Comm -> Prop) (value : Item -> point -> F) (sim : PSt -> VSt -> Prop) (okpt : point -> Prop),
+    (forall items cs pt st vst pf st', okpt pt -> Forall2 R items cs -> sim st vst -> open items pt st = Ok (pf, st') ->
+       exists vst', check cs pt (map (fun it => value it pt) items) pf vst = Ok (true, vst') /\ sim st' vst') ->
+    forall items cs qs ev st vst pfs st',
+      maps_agree Comm Item R (label_map items) (label_map cs) ->
+      (forall pl pt labels, In (pl, (pt, labels)) (groups qs) -> okpt pt /\ evals_true Item value (label_map items) ev pt labels) ->
+      sim st vst ->
+      default_batch_open Item Proof PSt open items qs st = Ok (pfs, st') ->
+      exists vst', default_batch_check Comm Proof VSt check cs qs ev pfs vst = Ok (true, vst') /\ sim st' vst'.
+Proof. exact @default_batch_complete_sim. Qed.
+Print Assumptions C01_default_batch_complete_sim.
+
+From PC Require Import Proofs.HyraxBatchFacts.
+Theorem C01_hyrax_batch_complete :
+  forall (FO : FieldOps) (FL : FieldLaws FO) keylen nv items cs qs ev ot ch pfs ot' ch',
+    (1 <= keylen)%nat -> keylen = (2 ^ (nv / 2))%nat ->
+    maps_agree (list gel) HState (hb_R keylen nv) (label_map items) (label_map cs) ->
+    (forall pl pt labels, In (pl, (pt, labels)) (groups qs) ->
+       hb_okpt keylen nv pt /\ evals_true HState (hb_value keylen) (label_map items) ev pt labels) ->
+    default_batch_open HState (list HProof) (list F * list F) (hb_open keylen) items qs (ot, ch) = Ok (pfs, (ot', ch')) ->
+    default_batch_check (list gel) (list HProof) (list F) (hb_check keylen) cs qs ev pfs ch = Ok (true, ch').
+Proof. exact @hyrax_batch_complete. Qed.
+Print Assumptions C01_hyrax_batch_complete.
